@@ -114,7 +114,7 @@ fn lsp_open(entry: &Path) -> Result<(Vec<String>, Vec<String>, usize), String> {
     let rt = tokio::runtime::Builder::new_current_thread().enable_all().build().map_err(|e| e.to_string())?;
     let seen: Arc<Mutex<Vec<(String, Vec<String>)>>> = Arc::new(Mutex::new(Vec::new()));
     let seen2 = seen.clone();
-    rt.block_on(async move {
+    let drained = rt.block_on(async move {
         let (mut service, mut socket) = LspService::new(incan::lsp::IncanLanguageServer::new);
         let drain = tokio::spawn(async move {
             while let Some(req) = socket.next().await {
@@ -140,8 +140,13 @@ fn lsp_open(entry: &Path) -> Result<(Vec<String>, Vec<String>, usize), String> {
             .finish();
         let _ = service.call(open).await;
         drop(service);
-        let _ = tokio::time::timeout(std::time::Duration::from_millis(3000), drain).await;
+        // Wait for every notification the server sent. A wall-clock limit must never silently truncate the
+        // list (that would look like "the LSP loaded fewer files"): on expiry the whole call is an error.
+        tokio::time::timeout(std::time::Duration::from_secs(120), drain).await.is_ok()
     });
+    if !drained {
+        return Err("LSP-TIMEOUT notifications not drained within 120 s".to_string());
+    }
     let entry_uri = tower_lsp::lsp_types::Url::from_file_path(entry).unwrap().to_string();
     let mut deps = Vec::new();
     let mut diags = Vec::new();
